@@ -8,7 +8,10 @@ propertiesByProfile) must be a function of the currently registered profiles (se
 * equal to the observation made earlier on the same path whenever the same state is reached again (add then remove restores everything),
 * validateWithProfile(...)[0] == validate(...) whatever defaultProfiles is; removing an unknown profile raises and changes nothing.
 
-The global cssutils.profile is never touched.
+`histories` never touches the global cssutils.profile. `global_registry` runs histories on the process-wide registry cssutils.profile itself (each history in
+a forked child process of its own, so the registry and its consumers start as they are after import and the parent's registry is never changed) and asks the CONSUMERS of the registry - Property(name, value).valid and
+the declarations of a parsed sheet - at every subset of the points of the history, so that consumer-side state that outlives a registry operation (caches keyed on something
+coarser than the registry contents) is seen when the registry changed between two questions.
 """
 import itertools
 import logging
@@ -21,7 +24,12 @@ D = ('toy-shadow-profile', {'x-four': '{x-kw}'}, {'x-kw': 'baz'})               
 # backslash-s / backslash-S through a macro of the same name, so that the later registered twin also shadows the other one's macro)
 E = ('toy-esc-lower', {'x-six': r'\d+', 'x-eight': r'{ident}({x-sep}{ident})*', 'x-ten': r'\w+'}, {'x-sep': r'\s+'})
 F = ('toy-esc-upper', {'x-seven': r'\D+', 'x-nine': r'{ident}({x-sep}{ident})*', 'x-eleven': r'\W+'}, {'x-sep': r'\S+'})
-TOYS = {t[0]: t for t in (A, B, C, D, E, F)}
+# second-level shadowers: the shadowed macro is mentioned by NO raw property pattern of a built-in profile, it is reached through other macros only
+# (namedcolor through {color}: general macro, redefined by the built-in CSS3 Color profile; int through {integer} / {rgbcolor}: token macro)
+G = ('toy-shadow-deep-profile', {'x-twelve': '{color}|none'}, {'namedcolor': 'red|brandblue'})
+H = ('toy-shadow-deep-token', {'x-thirteen': '{integer}'}, {'int': r'[-]?\d+|x\d'})
+TOYS = {t[0]: t for t in (A, B, C, D, E, F, G, H)}
+WIDE = (A[0], B[0], C[0], D[0], E[0], F[0])  # the toys of the wide enumeration of the thorough tier
 NARROW = (A[0], B[0], C[0], D[0])  # the toys of the deep (length 4) enumeration of the thorough tier
 CSS2 = 'CSS Level 2.1'
 CSS3_COLOR = 'CSS Color Module Level 3'
@@ -31,7 +39,9 @@ BATTERY = [('width', '1px'), ('width', 'foo'), ('width', 'auto'), ('color', 'red
            ('x-two', 'baz'), ('x-three', 'foo'), ('x-three', '1px'), ('x-three', 'k2'), ('x-four', 'baz'), ('x-four', 'foo'), ('x-five', 'red'),
            ('x-five', 'rgba(1,2,3,.5)'), ('nope', '1'),
            ('x-six', '12'), ('x-six', 'ab'), ('x-seven', '12'), ('x-seven', 'ab'), ('x-eight', 'a b'), ('x-eight', 'a,b'), ('x-eight', 'a'),
-           ('x-nine', 'a b'), ('x-nine', 'a,b'), ('x-nine', 'a'), ('x-ten', 'ab'), ('x-ten', '::'), ('x-eleven', 'ab'), ('x-eleven', '::')]
+           ('x-nine', 'a b'), ('x-nine', 'a,b'), ('x-nine', 'a'), ('x-ten', 'ab'), ('x-ten', '::'), ('x-eleven', 'ab'), ('x-eleven', '::'),
+           ('color', 'brandblue'), ('background-color', 'brandblue'), ('x-five', 'brandblue'), ('x-twelve', 'brandblue'), ('x-twelve', 'red'), ('x-twelve', 'none'),
+           ('z-index', '1'), ('z-index', 'x1'), ('color', 'x7'), ('x-thirteen', '1'), ('x-thirteen', 'x1')]
 
 
 def model(names):
@@ -56,15 +66,29 @@ def model(names):
     def is_length(v):
         return v == 'foo' if length_foo else v == '1px'
 
+    brand = G[0] in reg  # namedcolor in force is G's (a toy is always registered after the built-in profiles)
+    xint = H[0] in reg  # int in force also takes x<digit>
+
     def colour(v):
-        return v == 'red' or (css3c and v.startswith('rgba('))
+        return v == 'red' or (brand and v == 'brandblue') or (css3c and v.startswith('rgba('))
+
+    def is_int(v):
+        return v in ('1', '7') or (xint and v in ('x1', 'x7'))
 
     out = {}
     for name, v in BATTERY:
         if name == 'width':
             ok = css2 and (is_length(v) or v == 'auto')
         elif name == 'color':
-            ok = (css2 and colour(v)) or (B[0] in reg and v in ('ish', '7'))
+            ok = (css2 and colour(v)) or (B[0] in reg and (v == 'ish' or is_int(v)))
+        elif name == 'background-color':
+            ok = css2 and colour(v)
+        elif name == 'z-index':
+            ok = css2 and is_int(v)
+        elif name == 'x-twelve':
+            ok = G[0] in reg and (colour(v) or v == 'none')
+        elif name == 'x-thirteen':
+            ok = H[0] in reg and is_int(v)
         elif name == 'opacity':
             ok = css3c and v == '.5'
         elif name == 'x-one':
@@ -100,10 +124,12 @@ def _ops(tier, family=None):
     quick tier, length <= 3 each:
       core:  the four toys A-D, addProfiles with EVERY ordered pair of them (so: a profile shadowing a macro in force before / after one that brings
              only new macro names, before / after one without macros, the two profiles defining the same macro in both orders);
-      twins: the case twins E, F and the token-macro shadower C (whose registration and removal re-expand everything), every ordered pair as a list.
+      twins: the case twins E, F and the token-macro shadower C (whose registration and removal re-expand everything), every ordered pair as a list;
+      deep:  the second-level shadowers G, H (the shadowed macro is used by the built-in property patterns only THROUGH other macros) and A, every ordered pair as a list.
     thorough tier:
       wide (length <= 3): all six toys, every ordered pair of them and three triples as lists - contains core and twins;
-      narrow (length <= 4): the four toys A-D with three pairs and one triple."""
+      narrow (length <= 4): the four toys A-D with three pairs and one triple;
+      deep4 (length <= 3): deep plus B (whose raw pattern mentions the token macro int directly)."""
     if family is None:
         family = 'core' if tier == 'quick' else 'wide'
     dflt = [A[0]]
@@ -117,8 +143,14 @@ def _ops(tier, family=None):
         toys = [C[0], E[0], F[0]]
         bulks = list(itertools.permutations(toys, 2))
         dflt = [E[0]]
+    elif family in ('deep', 'deep4'):
+        # second-level shadowers G (a macro of the general table AND of a built-in profile, reached through {color}) and H (a token macro reached through {integer}),
+        # with A (uses {color}, brings an unrelated macro) and, in deep4, B (the only pattern that mentions {int} directly)
+        toys = [A[0], G[0], H[0]] + ([B[0]] if family == 'deep4' else [])
+        bulks = list(itertools.permutations(toys, 2))
+        dflt = [G[0]]
     else:
-        toys = list(TOYS)
+        toys = list(WIDE)
         bulks = list(itertools.permutations(toys, 2)) + [(B[0], C[0], D[0]), (C[0], B[0], A[0]), (D[0], F[0], E[0])]
         dflt = [A[0], E[0]]
     ops = [('add', n) for n in toys]
@@ -518,7 +550,7 @@ def histories(ctx):
     maxlen = 3
     start = _start_state()
     # tasks: every applicable prefix of length 2 (its last node is checked by the task), plus the length-1 prefixes checked alone
-    families = [('core', 3), ('twins', 3)] if ctx.tier == 'quick' else [('wide', 3), ('narrow', 4)]
+    families = [('core', 3), ('twins', 3), ('deep', 3)] if ctx.tier == 'quick' else [('wide', 3), ('narrow', 4), ('deep4', 3)]
     tasks = []
     for family, flen in families:
         ops = _ops(ctx.tier, family)
@@ -557,11 +589,15 @@ def histories(ctx):
                     "another toy's macro)",
             'twins': 'the token-macro shadower C and the case twins E, F (patterns equal up to the letter case of an escape class: d/D and w/W directly, s/S through a macro of the same name)',
             'wide': 'all six toy profiles (A-D and the case twins E, F whose patterns are equal up to the letter case of an escape class: d/D, w/W, s/S through a macro)',
-            'narrow': 'the four toy profiles A-D'}
+            'narrow': 'the four toy profiles A-D',
+            'deep': 'toy A and the second-level shadowers G, H (G: macro namedcolor of the general table and of the built-in CSS3 Color profile, reached only through {color}; '
+                    'H: token macro int, reached only through {integer} / {rgbcolor})',
+            'deep4': 'toys A, B and the second-level shadowers G, H (G: macro namedcolor, reached only through {color}; H: token macro int, reached through {integer} / '
+                     "{rgbcolor} and directly by B's pattern only)"}
     parts = []
     for f, flen in families:
         nb = [o[1] for o in fam[f] if o[0] == 'bulk']
-        what = 'every ordered pair of its toys' if f in ('core', 'twins') else ('every ordered pair of the toys and 3 triples' if f == 'wide' else '3 pairs and 1 triple')
+        what = 'every ordered pair of its toys' if f in ('core', 'twins', 'deep', 'deep4') else ('every ordered pair of the toys and 3 triples' if f == 'wide' else '3 pairs and 1 triple')
         parts.append(f'{f}: all applicable sequences of length <= {flen} over {len(fam[f])} operations on {desc[f]}: addProfile of each, addProfiles x {len(nb)} lists ({what}), '
                      f'removeProfile of each / an unknown name / the built-in CSS3 Color profile, removeProfile(all=True), defaultProfiles = CSS 2.1 / a toy / None')
     walks_txt = '' if ctx.tier == 'quick' else '; 64 seeded random walks of 200 operations over the wide alphabet'
@@ -573,5 +609,185 @@ def histories(ctx):
                                     {'history': ['addProfiles([toy-shadow-token, toy-new])']},
                                     {'history': ['addProfile(toy-esc-lower)', "removeProfile('toy-esc-lower')", 'addProfile(toy-esc-upper)']}],
                         'bound': ', '.join(f'{f}: histories of <= {flen} operations over {len(fam[f])} operations' for f, flen in families) + walks_txt +
-                                 '; six toy profiles and a fixed battery; addProfiles lists of 2 (thorough: up to 3) profiles; inapplicable operations (re-adding a registered name, '
+                                 '; eight toy profiles and a fixed battery; addProfiles lists of 2 (thorough: up to 3) profiles; inapplicable operations (re-adding a registered name, '
                                  'defaults naming an unregistered profile) are not taken'})
+
+
+# ------------------------------------------------------------------------------------ the process-wide registry and its consumers
+import re as _re
+
+# consumer battery: for every property name of the battery one or two pairs whose verdict depends on the registry contents, with values the serializer writes back
+# unchanged (identifiers, numbers, dimensions, separated by single blanks), so that Property.value is the text that was given
+DOM_BATTERY = [('width', '1px'), ('width', 'foo'), ('color', 'red'), ('color', 'ish'), ('color', 'brandblue'), ('x-one', 'foo'), ('x-one', 'only'), ('x-two', 'bar'),
+               ('x-three', 'k2'), ('x-four', 'baz'), ('x-five', 'red'), ('nope', '1'), ('x-six', '12'), ('x-seven', 'ab'), ('x-eight', 'a b'), ('x-nine', 'a'), ('x-ten', 'ab'),
+               ('x-eleven', 'ab'), ('x-twelve', 'none'), ('z-index', 'x1'), ('x-thirteen', '1')]
+assert all(pair in BATTERY and _re.fullmatch(r'[a-z0-9]+( [a-z0-9]+)*', pair[1]) for pair in DOM_BATTERY)
+GLOBAL_TOYS = {'quick': (A[0], C[0], D[0], E[0]), 'thorough': (A[0], C[0], D[0], E[0], G[0], H[0])}
+
+
+def _global_ops(tier):
+    """toys with equally many property names among them (C, D, G, H: one name each; A, E, F: three each), so that remove X ; add Y keeps the NUMBER of known names"""
+    toys = GLOBAL_TOYS[tier]
+    return [('add', n) for n in toys] + [('remove', n) for n in toys] + [('remove', 'toy-unknown'), ('removeall', None)]
+
+
+def _observe_consumers(names, hist, asked, out, stats):
+    """ask the registry and its consumers about the DOM battery; the expected answer is the hand model of the registered profiles"""
+    import cssutils
+    import cssutils.css
+    m = model(names)
+    inputs = {'history': [list(map(_j, h)) for h in hist], 'asked_after_steps': list(asked)}
+    hs = ' ; '.join(_show(h) for h in hist) + f' (consumers asked after steps {list(asked)})'
+    reg = cssutils.profile
+    if tuple(reg.profiles) != names:
+        out.append(('bounded: profiles lists the registered profiles in order', f'cssutils.profile after [{hs}]: {tuple(reg.profiles)!r}, expected {names!r}', inputs, None))
+        return
+    sheet = cssutils.parseString('a { ' + '; '.join('%s: %s' % pair for pair in DOM_BATTERY) + ' }')
+    parsed = sheet.cssRules[0].style.getProperties(all=True) if sheet.cssRules.length else []
+    if [(p.name, p.value) for p in parsed] != DOM_BATTERY:
+        parsed = None
+        stats['unparsed'] += 1
+    for i, pair in enumerate(DOM_BATTERY):
+        stats['asked'] += 1
+        a = reg.validate(*pair)
+        if a != m[pair]:
+            out.append(('bounded: validate says valid iff some registered profile defining the property accepts the value',
+                        f'cssutils.profile after [{hs}]: validate{pair!r} = {a!r}, expected {m[pair]}', inputs, None))
+        prop = cssutils.css.Property(*pair)
+        if prop.value != pair[1]:
+            stats['respelt'] += 1
+            continue
+        if prop.valid != m[pair]:
+            out.append(('bounded: Property.valid on the process-wide registry says valid iff some registered profile defining the property accepts the value',
+                        f'cssutils.profile after [{hs}]: Property{pair!r}.valid = {prop.valid!r}, expected {m[pair]} (cssutils.profile.validate says {a!r})', inputs, None))
+        if parsed is not None and parsed[i].valid != m[pair]:
+            out.append(('bounded: a parsed declaration is valid iff some registered profile defining the property accepts the value',
+                        f'cssutils.profile after [{hs}]: parseString(...) declaration {pair[0]}: {pair[1]} has valid = {parsed[i].valid!r}, expected {m[pair]} '
+                        f'(cssutils.profile.validate says {a!r})', inputs, None))
+    if sorted(reg.knownNames) != sorted(n for p in names for n in reg.propertiesByProfile(p)):
+        out.append(('bounded: knownNames lists the property names of the registered profiles', f'cssutils.profile after [{hs}]', inputs, None))
+
+
+def _global_walk(args):
+    """every applicable sequence of <= maxlen operations below `prefix` on the REAL cssutils.profile object, each run once per subset of the
+    intermediate points (before the first operation, after every operation but the last) at which the consumers are asked; they are always asked at the end"""
+    import cssutils
+    prefix, maxlen, tier = args  # a prefix of one operation is run alone, a prefix of two with every extension up to maxlen
+    cssutils.log.setLevel(logging.FATAL)
+    ops = _global_ops(tier)
+    out = []
+    stats = {'histories': 0, 'asked': 0, 'unparsed': 0, 'respelt': 0, 'states': set(), 'seqs': 0}
+    reg = cssutils.profile
+    start = _start_state()
+    if tuple(reg.profiles) != start[0]:
+        out.append(('bounded: the process-wide registry starts with the built-in profiles', f'{tuple(reg.profiles)!r}', None, None))
+        return out, stats
+    # compile the registry's lazily compiled patterns and the tokenizer once, so that the children inherit them; the consumers of the registry are not asked here
+    for pair in BATTERY:
+        reg.validate(*pair)
+    cssutils.parseString('a {}')
+
+    def sequences(seq, names, defaults):
+        yield seq
+        if len(seq) < maxlen:
+            for op in ops:
+                if applicable(op, names, defaults):
+                    yield from sequences(seq + [op], *next_state(op, names, defaults))
+
+    def one_history(seq, mask, asked):
+        o, st = [], {'asked': 0, 'unparsed': 0, 'respelt': 0}
+        names, defaults = start
+        for i, op in enumerate(seq):
+            if mask[i]:
+                _observe_consumers(names, seq[:i], asked, o, st)
+            apply(reg, op)
+            names, defaults = next_state(op, names, defaults)
+        _observe_consumers(names, seq, asked, o, st)
+        return o, st, names
+
+    state = start
+    for op in prefix:
+        if not applicable(op, *state):
+            return out, stats
+        state = next_state(op, *state)
+    for seq in ([list(prefix)] if len(prefix) < 2 else sequences(list(prefix), *state)):
+        stats['seqs'] += 1
+        n = len(seq)
+        for mask in itertools.product((False, True), repeat=n):
+            if tier == 'quick' and sum(mask) > 1:
+                continue  # quick tier: the consumers are asked at most once before the end
+            asked = [i for i in range(n) if mask[i]] + [n]
+            stats['histories'] += 1
+            o, st, names = _in_child(one_history, seq, mask, asked)
+            out.extend(o)
+            for k in st:
+                stats[k] += st[k]
+            stats['states'].add(names)
+        if len(out) > 200:
+            break
+    return out, stats
+
+
+def _in_child(f, *args):
+    """run f(*args) in a forked child of this process and return its result: every history starts from the registry AND the consumers (module-level state of
+    cssutils.css.property etc.) as they are after import, so a reported history reproduces on its own"""
+    import os
+    import pickle
+    r, w = os.pipe()
+    pid = os.fork()
+    if pid == 0:
+        code = 0
+        try:
+            os.close(r)
+            data = pickle.dumps(f(*args))
+            with os.fdopen(w, 'wb') as fh:
+                fh.write(data)
+        except BaseException:
+            code = 1
+        finally:
+            os._exit(code)
+    os.close(w)
+    with os.fdopen(r, 'rb') as fh:
+        data = fh.read()
+    os.waitpid(pid, 0)
+    if not data:
+        raise RuntimeError('history child failed: %r' % (args,))
+    return pickle.loads(data)
+
+
+def global_registry(ctx):
+    import multiprocessing as mp
+    import cssutils
+    cssutils.log.setLevel(logging.FATAL)
+    saved_global = (tuple(cssutils.profile.profiles), tuple(cssutils.profile.knownNames))
+    maxlen = 3
+    ops = _global_ops(ctx.tier)
+    tasks = [((op1,), maxlen, ctx.tier) for op1 in ops] + [((op1, op2), maxlen, ctx.tier) for op1 in ops for op2 in ops]
+    with mp.get_context('fork').Pool(max(1, ctx.jobs)) as pool:
+        results = pool.map(_global_walk, tasks, chunksize=1)
+    tot = {'histories': 0, 'asked': 0, 'unparsed': 0, 'respelt': 0, 'seqs': 0}
+    states = set()
+    found = []
+    for out, stats in results:
+        for k in tot:
+            tot[k] += stats[k]
+        states |= stats['states']
+        found.extend(out)
+    found.sort(key=lambda o: (len((o[2] or {}).get('history', ())), len((o[2] or {}).get('asked_after_steps', ()))))
+    for what, detail, inputs, kid in found:
+        ctx.violation(what, detail, True, inputs, known_id=kid)
+    if tot['unparsed']:
+        ctx.violation('bounded: the battery sheet parses into its declarations', f'{tot["unparsed"]} observations: parseString did not return the declarations as written', True, None)
+    if (tuple(cssutils.profile.profiles), tuple(cssutils.profile.knownNames)) != saved_global:
+        ctx.violation('bounded: the check leaves the global cssutils.profile alone', 'cssutils.profile changed during the run', True, None)
+    toys = GLOBAL_TOYS[ctx.tier]
+    bound = (f'operation sequences of length <= {maxlen} over {len(ops)} operations (addProfile / removeProfile of {len(toys)} toys, removeProfile of an unknown name, '
+             f'removeProfile(all=True); defaultProfiles stays None because Property.valid is documented to depend on it) on the process-wide cssutils.profile, each sequence once '
+             f'per subset of its intermediate points at which the consumers are asked; {len(DOM_BATTERY)} battery pairs whose value the serializer writes back unchanged')
+    ctx.bounded.append({'name': 'process-wide registry and its consumers', 'evaluations': tot['asked'] * 3, 'distinct_nontrivial': len(states), 'exhaustive': True,
+                        'rule': f'{tot["seqs"]} applicable operation sequences x all subsets of observation points = {tot["histories"]} histories on the real cssutils.profile object '
+                                '(each in a freshly forked process); at every chosen point and at the end: cssutils.profile.validate, '
+                                'Property(name, value).valid and the .valid of the declarations of one parsed sheet for every battery pair against the hand model of the registered '
+                                'profiles; knownNames against propertiesByProfile; distinct = ordered registered-profile states at the end',
+                        'samples': [{'history': ['addProfile(toy-shadow-token)', "removeProfile('toy-shadow-token')", 'addProfile(toy-shadow-profile)'], 'asked_after_steps': [1, 3]}],
+                        'bound': bound})
